@@ -86,7 +86,7 @@ pub fn parse_rule(to_parse: &str) -> Result<Rule, String> {
     let mut chrs = str_to_chars!(s);
 
     let mut length = chrs.len();
-    if length < 4 {
+    if length == 0 {
         let err = pr_error("Invalid string.", s);
         return Err(err);
     }
